@@ -302,6 +302,26 @@ theorem fallback_agrees_with_sys_getframe (stack : List Frame) (n : Nat) :
       simpa [List.head?_drop] using h2
     simp [this, Except.map]
 
+/-! ### `opt(depth=…)` whatever other options accompany it -/
+
+/-- GENERATED obligation: every return path of `opt()` – the final `Logger(...)` and every delegation
+such as the branch of a deprecated spelling – hands its own `depth` parameter on -/
+theorem opt_forwards_depth : ∀ p ∈ Gen.optPaths, ∀ d : Int, optDepth p.2 d = d := by
+  have h : ∀ p ∈ Gen.optPaths, p.2 = DepthFwd.param := by decide
+  intro p hp d
+  rw [h p hp]; rfl
+
+/-- `logger.opt(depth=d, <any other options>).<method>(…)`: whichever return path of `opt()` is taken
+and whatever options the logger had before, the record identifies the frame `d` levels above the caller -/
+theorem opt_then_log_identifies_frame (lib : Str → Frame) (p : Str × DepthFwd) (hp : p ∈ Gen.optPaths)
+    (m : MethodRow) (hm : m ∈ Gen.methods) (opts : List Int) (hlen : opts.length = 9) (d : Nat)
+    (us : List Frame) (f : Frame) (hf : us[d]? = some f) (ex : Exec) :
+    logViaMethod lib m (optOptions p.2 d opts) us ex = .ok (recordOf f ex) := by
+  apply frame_is_caller_plus_depth lib m hm _ d ?_ us f hf ex
+  have hidx : Gen.initDepthIndex = 1 := by decide
+  refine ⟨by simp [optOptions, hlen], ?_⟩
+  simp [optOptions, hidx, opt_forwards_depth p hp, hlen]
+
 /-! ### thread, process, time, elapsed; totality -/
 
 /-- whatever frame is selected (inside the stack, beyond it, even for a negative depth): the call
